@@ -187,12 +187,15 @@ class PropertyValue(css_parser.util._NewBase):
                 ok = False
                 break
 
-        self.wellformed = ok
         if ok:
+            self.wellformed = True
             self._setSeq(seq)
         else:
+            # (with a raising log the assignment is rejected and the object
+            # stays as it is, the flag included)
             self._log.error('PropertyValue: Unknown syntax or no value: %s' %
                             self._valuestr(cssText))
+            self.wellformed = False
 
     cssText = property(lambda self: css_parser.ser.do_css_PropertyValue(self),
                        _setCssText,
